@@ -120,7 +120,9 @@ base64_encode(const uint8_t *src, const size_t src_size,
 		}
 		(*wpos ++) = '='; /* c4: tail padding. */
 	}
-	(*wpos) = 0;
+	if (dst_size > enc_size) { /* Terminate only if there is room. */
+		(*wpos) = 0;
+	}
 #if 0
 	if ((wpos - dst) != enc_size) { /* Must be euqual! */
 		(*enc_size_ret) = (wpos - dst);
@@ -189,7 +191,9 @@ zero_out:
 		(*wpos ++) = (base64_tbl_decoding[rpos[1]] << 4 | base64_tbl_decoding[rpos[2]] >> 2);
 		break;
 	}
-	(*wpos) = 0;
+	if (dst_size > (size_t)(wpos - dst)) { /* Terminate only if there is room. */
+		(*wpos) = 0;
+	}
 	if (NULL != dcd_size_ret) { /* Real decoded size can be smaller than calculated. */
 		(*dcd_size_ret) = (wpos - dst);
 	}
